@@ -340,7 +340,7 @@ Section ChainFacts.
         assert (Hy : In (last (x :: y :: l') d0) (y :: l')).
         { change (last (x :: y :: l') d0) with (last (y :: l') d0).
           apply last_In. discriminate. }
-        inversion Hs as [|? ? _ Hf]; subst. rewrite Forall_forall in Hf.
+        inversion Hs as [|? ? _ Hf]. rewrite Forall_forall in Hf.
         apply (R_irrefl x). rewrite E at 2. apply Hf, Hy.
   Qed.
 
